@@ -19,6 +19,39 @@ theorem bind_ok_eq_map {α β : Type} (x : R α) (f : α → β) : (x >>= fun a 
 /-- `i % 2` of Python for the literal 2 is the Euclidean remainder -/
 theorem pyMod_two (i : Int) : pyMod i 2 = i % 2 := Int.fmod_eq_emod_of_nonneg i (by decide)
 
+/-! ### the chromosome table: a hit is never 0, so `d.get(x) or int(x)` = `d[x] if x in d else int(x)` = `tokenValue x`
+
+  The source may spell the odd-index value either way; both are met through the two facts below (what `tokenValue` is on a hit and on a
+  miss of the table), after a case split on the lookup `dGet? Gen.nematodeChrInt x` — never through the shape of the generated term. -/
+
+/-- a successful lookup returns a value stored in the table -/
+theorem dGet?_mem {κ ν : Type} [DecidableEq κ] : ∀ (d : List (κ × ν)) (k : κ) (v : ν), dGet? d k = some v → (k, v) ∈ d
+  | [], _, _, h => by simp [dGet?] at h
+  | (k', v') :: r, k, v, h => by
+    unfold dGet? at h
+    by_cases hk : k' = k
+    · simp only [hk, if_true, Option.some.injEq] at h
+      simp [hk, h]
+    · simp only [hk, if_false] at h
+      exact List.mem_cons_of_mem _ (dGet?_mem r k v h)
+
+/-- no value of the extracted constant `NEMATODE_CHR_INT` is 0 (a fact about the table, by evaluation) -/
+theorem nematodeChrInt_values_ne_zero : ∀ p ∈ Gen.nematodeChrInt, p.2 ≠ 0 := by decide
+
+/-- … so a hit in the table is never falsy -/
+theorem nematode_hit_ne_zero {x : Str} {v : Int} (h : dGet? Gen.nematodeChrInt x = some v) : v ≠ 0 :=
+  nematodeChrInt_values_ne_zero (x, v) (dGet?_mem _ _ _ h)
+
+/-- `tokenValue` on a hit: the table's value (the `or int(x)` arm is dead) -/
+theorem tokenValue_hit {x : Str} {v : Int} (h : dGet? Gen.nematodeChrInt x = some v) : tokenValue x = .ok v := by
+  unfold tokenValue
+  simp only [h, nematode_hit_ne_zero h, ne_eq, not_false_eq_true, if_true]
+
+/-- `tokenValue` on a miss: `int(x)` -/
+theorem tokenValue_miss {x : Str} (h : dGet? Gen.nematodeChrInt x = none) : tokenValue x = pyInt x := by
+  unfold tokenValue
+  simp only [h]
+
 /-- the model's per-match step of `naturalKey` (named once here) -/
 def keyStep (p : Str × Str) : R (Int × Str) := do let v ← tokenValue p.1; pure (v, p.2)
 
